@@ -172,12 +172,12 @@ pub struct RelExp {
 pub enum ItemExp { Entry(Vec<RelExp>), Substvar(String) }
 
 // (two names that differ where '+' and '-' sort differently under byte order and under "split at dashes" orders)
-const NAMES: &[&str] = &["libfoo2.0-dev", "a", "g++", "x~y", "python3-dulwich", "c-ares", "zlib1g", "c+tools", "a-b", "a1"];
+const NAMES: &[&str] = &["libfoo2.0-dev", "a", "g++", "x~y", "python3-dulwich", "c-ares", "zlib1g", "c+tools", "a-b", "a1", "lib9", "lib10"];   // (lib10 < lib9 in byte order)
 const AQS: &[&str] = &["any", "native", "amd64"];
 /// two version chains in increasing Debian order (Policy 5.6.12)
 // (ranks 0..5 are the ordered chains of C12; the entries after them - hyphens inside the upstream part - are used by the generated fields only)
 pub const VERS: [&[&str]; 2] = [&["1.0~rc1", "1.0", "1.0-1", "1.0-1+b1", "1.1", "2", "1.0-rc1-2", "1.0-0"], &["0.9~~", "0.9~", "0.9", "0.9+dfsg-1", "0.10", "1", "0.9.8-beta-1~bpo1", "01.2-00"]];   // (zero revision, leading zeros: equal to shorter spellings, not the same text)
-const ARCHS: &[&str] = &["amd64", "i386", "linux-any", "hurd-i386"];
+const ARCHS: &[&str] = &["amd64", "i386", "linux-any", "hurd-i386", "linux-amd64", "any-i386", "kfreebsd-any"];
 const PROFS: &[&str] = &["nocheck", "stage1", "cross", "pkg.foo.bar"];
 
 /// Concretise the token kinds of a generated field by role; returns (text, per-token texts).
